@@ -30,6 +30,8 @@ Verdict(v) ==
   ELSE IF FType(f) # WantType(v.kind) THEN "frame type is not the documented one"
   ELSE IF CommandKind(f) # KindOf(v.kind) THEN "device parser classifies it as " \o CommandKind(f)
   ELSE IF v.prev >= 0 /\ FMsgId(f) # Mod(v.prev + 1, 256) THEN "message id does not advance by one modulo 256"
+  ELSE IF v.kind = "get_props" /\ FBody(f)[2] # Len(ParseIds(Drop(FBody(f), 2), FBody(f)[2])) THEN "announced property count differs from the ids carried"
+  ELSE IF v.kind \in {"set_props", "set_props_any"} /\ FBody(f)[2] # Len(ParseWrites(Drop(FBody(f), 2), FBody(f)[2])) THEN "announced property count differs from the entries carried"
   ELSE IF v.kind = "get_props" /\ ~SameIds(ParseIds(Drop(FBody(f), 2), FBody(f)[2]), v.ids) THEN "property ids"
   ELSE IF v.kind = "set_props" /\ ~SameWrites(ParseWrites(Drop(FBody(f), 2), FBody(f)[2]), v.writes) THEN "property writes / vendor value encoding"
   ELSE IF v.kind = "toggle_display" /\ FBody(f) # ToggleDisplayBody(v.beep) THEN "toggle display body"
